@@ -338,13 +338,13 @@ def ob_shapes(rng):
     return ("shapes", prog, judge, "d=%s n=%s" % (d, nn))
 
 
-def arrays(rng, n):
+def arrays(rng, n, long_ok=False):
     pool = [0, 1, 2, 2, -1, 1.0, 1.5, None, True, False, S("a"), S("b"), S(""), [1], [1, 2], [], Obj([(S("a"), 1)]),
             Obj([(S("a"), 2), (S("b"), 1)]), Dec("1.0"), Big(2), 2 ** 63, -0.0, [[1], 2], S("ab")]
     out = []
     for _ in range(n):
         r = rng.random()
-        if r < 0.1:
+        if r < 0.1 and long_ok:
             # long arrays with few key classes but distinguishable elements: sorting algorithms switch
             # strategy with the length (insertion sort for short slices), so stability, maximal runs
             # and "first of each group" must also be observed beyond a few dozen elements
@@ -414,7 +414,7 @@ def task(t):
         kind = rng.choice(["sorting", "sorting", "entries", "search", "search", "shapes"])
         if kind == "sorting":
             name, prog, judge, desc = ob_sorting(rng)
-            inputs = arrays(rng, 25)
+            inputs = arrays(rng, 25, long_ok=True)      # (not for `combinations` & co.: exponential in the length)
         elif kind == "entries":
             name, prog, judge, desc = ob_entries(rng)
             inputs = arrays(rng, 25)
